@@ -2,7 +2,9 @@ package main
 
 import (
 	"fmt"
+	"go/token"
 	"go/types"
+	"sort"
 	"strings"
 
 	"golang.org/x/tools/go/ssa"
@@ -53,7 +55,14 @@ func (e *Engine) stub4(fn *ssa.Function, args []any) (any, bool) {
 			return Tuple{BytesV{E: `""`, Nil: true}, IfaceV{}}, true
 		}
 		p := iv.V.(Ptr)
+		// deterministic (canonical) encoding: a message that is field-for-field the same term structure as one
+		// marshalled before yields the same bytes
+		skey := iv.T.String() + ":" + structKey((*p.cells)[p.idx], map[*[]any]bool{})
+		if prev, ok := e.marshalMemo[skey]; ok {
+			return Tuple{BytesV{E: prev}, IfaceV{}}, true
+		}
 		sym := e.freshSym("String", "marshal")
+		e.marshalMemo[skey] = sym
 		// constructed values live in a reserved part of the byte-string space: they start with the tag
 		// byte 0x01, which raw harness inputs (vf.Bytes/vf.String) are constrained not to start with.
 		// proto3: a message whose fields are all default marshals to zero bytes
@@ -85,6 +94,31 @@ func (e *Engine) stub4(fn *ssa.Function, args []any) (any, bool) {
 		return TimeV{"(+ " + args[0].(TimeV).E + " " + intE(args[1]) + ")"}, true
 	case "(time.Time).Sub":
 		return SymInt{"(- " + args[0].(TimeV).E + " " + args[1].(TimeV).E + ")"}, true
+	case "(time.Duration).Hours":
+		return SymReal{"(/ " + realE(args[0]) + " 3600000000000.0)"}, true
+	case "(time.Duration).Minutes":
+		return SymReal{"(/ " + realE(args[0]) + " 60000000000.0)"}, true
+	case "(time.Duration).Seconds":
+		return SymReal{"(/ " + realE(args[0]) + " 1000000000.0)"}, true
+	case "(time.Duration).Milliseconds":
+		return e.binop(token.QUO, args[0], int64(1000000), nil), true
+	case "(time.Duration).Microseconds":
+		return e.binop(token.QUO, args[0], int64(1000), nil), true
+	case "(time.Duration).Nanoseconds":
+		return args[0], true
+	case "time.Since":
+		return SymInt{"(- " + e.clock().E + " " + args[0].(TimeV).E + ")"}, true
+	case "(time.Time).Equal":
+		return SymBool{"(= " + args[0].(TimeV).E + " " + args[1].(TimeV).E + ")"}, true
+	case "(time.Time).Compare":
+		a, b := args[0].(TimeV).E, args[1].(TimeV).E
+		return SymInt{fmt.Sprintf("(ite (< %s %s) (- 1) (ite (= %s %s) 0 1))", a, b, a, b)}, true
+	case "(time.Time).UnixNano":
+		return SymInt{args[0].(TimeV).E}, true
+	case "(time.Time).Unix":
+		return e.binop(token.QUO, SymInt{args[0].(TimeV).E}, int64(1000000000), nil), true
+	case "(time.Time).UTC", "(time.Time).Local":
+		return args[0], true
 	case "time.Until":
 		return SymInt{"(- " + args[0].(TimeV).E + " " + e.clock().E + ")"}, true
 	case "(time.Time).IsZero":
@@ -111,6 +145,19 @@ func (e *Engine) stub4(fn *ssa.Function, args []any) (any, bool) {
 
 func (e *Engine) intrinsic3(name string, args []any) (any, bool) {
 	switch name {
+	case "NonCanonical": // a different byte string that decodes to the same message (natively: the encoding twice, which protobuf merges)
+		b := args[0].(BytesV)
+		sym, ok := e.resolve(bytesE(b), keysOf(msgOf))
+		if !ok {
+			panic(pathEnd{"NonCanonical of bytes that are not a marshalled message"})
+		}
+		alt := e.freshSym("String", "noncanon")
+		e.S.Send(fmt.Sprintf("(assert (and (str.prefixof \"\\u{1}M\" %s) (not (= %s %s)) (= (str.len %s) (* 2 (str.len %s)))))", alt, alt, sym, alt, sym))
+		for other := range msgOf {
+			e.S.Send(fmt.Sprintf("(assert (not (= %s %s)))", alt, other))
+		}
+		msgOf[alt] = msgOf[sym]
+		return BytesV{E: alt}, true
 	case "Sleep":
 		e.pendingSleep = intE(args[0])
 		return nil, true
@@ -157,6 +204,68 @@ func (e *Engine) intrinsic3(name string, args []any) (any, bool) {
 		return SymBool{"(not " + boolE(args[0]) + ")"}, true
 	}
 	return nil, false
+}
+
+// structKey renders a message value as a canonical string of its leaves (terms), following pointers.
+func structKey(v any, seen map[*[]any]bool) string {
+	switch x := v.(type) {
+	case nil:
+		return "nil"
+	case StructV:
+		parts := make([]string, len(x))
+		for i, f := range x {
+			parts[i] = structKey(f, seen)
+		}
+		return "{" + strings.Join(parts, ",") + "}"
+	case Ptr:
+		if seen[x.cells] {
+			return "cycle"
+		}
+		seen[x.cells] = true
+		defer delete(seen, x.cells)
+		return "&" + structKey((*x.cells)[x.idx], seen)
+	case SliceV:
+		parts := make([]string, x.len)
+		for i := 0; i < x.len; i++ {
+			parts[i] = structKey((*x.arr)[x.off+i], seen)
+		}
+		return "[" + strings.Join(parts, ",") + "]"
+	case BytesV:
+		if x.Nil && x.Obj == nil {
+			return "b\"\""
+		}
+		return "b" + bytesE(x)
+	case IfaceV:
+		if x.T == nil {
+			return "nil"
+		}
+		return "i(" + x.T.String() + ")" + structKey(x.V, seen)
+	case *MapV:
+		if x == nil {
+			return "map{}"
+		}
+		parts := make([]string, len(x.keys))
+		for i := range x.keys {
+			parts[i] = structKey(x.keys[i], seen) + ":" + structKey(x.vals[i], seen)
+		}
+		sort.Strings(parts)
+		return "map{" + strings.Join(parts, ",") + "}"
+	case TimeV:
+		return "t" + x.E
+	case SymInt:
+		return x.E
+	case SymBool:
+		return x.E
+	case SymStr:
+		return "s" + x.E
+	case SymReal:
+		return x.E
+	case string:
+		return "s" + smtStr(x)
+	case int64, bool:
+		return fmt.Sprint(x)
+	}
+	return fmt.Sprintf("?%T%p", v, v)
 }
 
 // nonDefault builds the SMT condition "some field of this message value is non-default".
